@@ -29,6 +29,9 @@ fn reason_name(i: &Invalid) -> String {
 }
 
 pub fn check_raw(ctx: &mut Ctx, r: &MPos, tag: &str) {
+    if ctx.miri_full() {
+        return;
+    }
     let case = format!("raw:{}", mfen::to_xfen(r));
     ctx.begin_case(&case);
     ctx.feature(&format!("src_{}", tag));
